@@ -133,7 +133,9 @@ fn sinc(x: f64) -> f64 {
     }
 }
 /// family 0: Lanczos-A (A = gain), family 1: 1 + g*cos(pi x) on |x| < 2 (strong negative
-/// lobes), family 2: bicubic with a = -g (sharpening), family 3: alternating-sign comb
+/// lobes), family 2: bicubic with a = -g (sharpening), family 3: alternating-sign comb,
+/// family 4: untruncated Gaussian (sigma = gain), family 5: constant 1 (both non-zero beyond
+/// their declared support, with fractional supports)
 fn cust<const FAM: u8, const G10: i32>(x: f64) -> f64 {
     let g = G10 as f64 / 10.0;
     match FAM {
@@ -162,6 +164,15 @@ fn cust<const FAM: u8, const G10: i32>(x: f64) -> f64 {
                 0.0
             }
         }
+        4 => {
+            // Gaussian that is NOT truncated at its declared support
+            (-(x * x) / (2.0 * g * g)).exp()
+        }
+        5 => {
+            // flat kernel, non-zero everywhere (beyond its declared support too)
+            let _ = g;
+            1.0
+        }
         _ => {
             if x.abs() < 3.0 {
                 let k = (x + 100.5).floor() as i64;
@@ -177,7 +188,7 @@ fn cust<const FAM: u8, const G10: i32>(x: f64) -> f64 {
     }
 }
 
-pub const CUSTOM_TABLE: [(u8, i32, f64); 26] = [
+pub const CUSTOM_TABLE: [(u8, i32, f64); 32] = [
     (0, 20, 2.0),
     (0, 40, 4.0),
     (0, 50, 5.0),
@@ -204,6 +215,12 @@ pub const CUSTOM_TABLE: [(u8, i32, f64); 26] = [
     (3, 14, 3.0),
     (3, 30, 3.0),
     (0, 30, 3.0),
+    (4, 5, 1.5),
+    (4, 10, 2.5),
+    (4, 10, 0.7),
+    (4, 20, 3.3),
+    (5, 10, 1.3),
+    (5, 10, 0.3),
 ];
 
 fn custom_fn(family: u8, g10: i32) -> fn(f64) -> f64 {
@@ -219,7 +236,8 @@ fn custom_fn(family: u8, g10: i32) -> fn(f64) -> f64 {
         (0, 20), (0, 30), (0, 40), (0, 50), (0, 80),
         (1, 2), (1, 5), (1, 10), (1, 30), (1, 50), (1, 55), (1, 100), (1, 300),
         (2, 5), (2, 10), (2, 20), (2, 40), (2, 60), (2, 80),
-        (3, 1), (3, 3), (3, 5), (3, 10), (3, 12), (3, 14), (3, 30)
+        (3, 1), (3, 3), (3, 5), (3, 10), (3, 12), (3, 14), (3, 30),
+        (4, 5), (4, 10), (4, 20), (5, 10)
     )
 }
 
